@@ -12,6 +12,7 @@ import numpy as np
 import sciris as sc
 import atomica as at
 from atomica.framework import InvalidFramework
+import itertools
 from atomica.cascade import InvalidCascade
 from atomica.data import InvalidDatabook
 from atomica.programs import InvalidProgramBook
@@ -237,10 +238,13 @@ def cat_framework(model, spec):
             add("timed-parameter-targetable", "reject", q["name"], m)
     # cascades
     if "Cascades" in model:
-        m = X.clone(model)
-        tab = X.table(m, "Cascades")
-        tab[1], tab[-1] = tab[-1], tab[1]
-        add("un-nested-cascade", "reject", "Cascades/swap first and last stage", m)
+        nst = len(X.table(model, "Cascades")) - 1
+        for i, j in itertools.combinations(range(1, nst + 1), 2):
+            # the stages of the valid cascade are strictly nested, so exchanging any two of them breaks the nesting somewhere
+            m = X.clone(model)
+            tab = X.table(m, "Cascades")
+            tab[i], tab[j] = tab[j], tab[i]
+            add("un-nested-cascade", "reject", f"Cascades/swap stages {i} and {j}", m)
         m = X.clone(model)
         X.table(m, "Cascades")[1][1] = "nosuchthing"
         add("undefined-cascade-constituent", "reject", "Cascades/stage 1", m)
@@ -302,6 +306,7 @@ def cases(tier):
             if name != "combined":
                 yield dict(kind="framework_mutations", name=name)
     yield dict(kind="databook_mutations")
+    yield dict(kind="databook_mutations", blank_pop_types=True)
     yield dict(kind="progbook_mutations")
 
 
@@ -405,20 +410,37 @@ def run_framework_mutations(case):
 
 
 def _try_databook(blob, F):
+    # two routes a user takes, each from the file itself: (A) read + validate explicitly, (B) hand the file to a project and run.
+    # "Rejected" = a dedicated error on route B (and no other kind of error on route A); "accepted" = both routes complete.
     try:
         D = at.ProjectData.from_spreadsheet(X.spreadsheet(blob), F)
         D.validate(F)
-        P = at.Project(framework=F, databook=D, do_run=False)
-        P.run_sim(P.parsets[0], store_results=False)
-        return None
+        err_a = None
     except Exception as e:  # noqa
-        return e
+        err_a = e
+    try:
+        P = at.Project(framework=F, databook=X.spreadsheet(blob), do_run=False)
+        P.run_sim(P.parsets[0], store_results=False)
+        err_b = None
+    except Exception as e:  # noqa
+        err_b = e
+    if err_a is not None and not isinstance(err_a, DEDICATED):
+        return err_a
+    return err_b
 
 
 def run_databook_mutations(case):
     spec = base_spec()
     w = World(spec)
     blob = X.values_only(w.D.to_spreadsheet().tofile().getvalue())
+    if case.get("blank_pop_types"):
+        # the population type column may be left empty when the framework has one population type (all shipped databooks do):
+        # the same catalogue is applied to that spelling of the valid databook
+        wb = X.load(blob)
+        ws = wb["Population Definitions"]
+        for r in range(2, ws.max_row + 1):
+            ws.cell(row=r, column=3).value = None
+        blob = X.dump(wb)
     vs = []
     counters = {}
     err = _try_databook(blob, w.F)
